@@ -1155,3 +1155,63 @@ func factsUnpackDecision(p *pkg) {
 	emit("def unpackDecision? : Option (Bool → Bool → Bool → Bool → Nat) := some fun noOverwrite isDir entIsDir isSelf => %s", sb.String())
 	emit("")
 }
+
+// ---------------------------------------------------------------- order of effects
+
+// callOrder lists, by source position, the first occurrence of each of the named calls inside fd.
+func callOrder(fset *token.FileSet, fd *ast.FuncDecl, names map[string]string) []string {
+	type hit struct {
+		pos  token.Pos
+		name string
+	}
+	first := map[string]token.Pos{}
+	ast.Inspect(fd.Body, func(n ast.Node) bool {
+		ce, ok := n.(*ast.CallExpr)
+		if !ok {
+			return true
+		}
+		key := exprString(fset, ce.Fun)
+		if label, ok := names[key]; ok {
+			if _, seen := first[label]; !seen {
+				first[label] = ce.Pos()
+			}
+		}
+		return true
+	})
+	var hs []hit
+	for l, p := range first {
+		hs = append(hs, hit{p, l})
+	}
+	sort.Slice(hs, func(i, j int) bool { return hs[i].pos < hs[j].pos })
+	var out []string
+	for _, h := range hs {
+		out = append(out, h.name)
+	}
+	return out
+}
+
+// factsOrder: (1) the metadata phase of createTarFile: owner, then extended attributes, then mode, then
+// times — the order in which the kernel's side effects of chown (clearing set-id bits and capabilities) are
+// repaired by the calls that follow; (2) in the loops of Unpack and UnpackLayer the breakout decision comes
+// before the first call that touches the file system for the entry.
+func factsOrder(p *pkg) {
+	emit("-- archive.go / diff.go: order of effects")
+	if fd, fset := findFunc(p, "createTarFile", ""); fd != nil {
+		ord := callOrder(fset, fd, map[string]string{"os.Lchown": "chown", "lsetxattr": "xattr", "handleLChmod": "chmod", "chtimes": "times", "lchtimes": "times"})
+		emit("/-- first occurrence, in source order, of the metadata calls of createTarFile -/")
+		emit("def createMetaOrder : List String := %s", leanStrList(ord))
+	} else {
+		emit("def createMetaOrder : List String := []")
+	}
+	for _, fn := range []string{"Unpack", "UnpackLayer"} {
+		fd, fset := findFunc(p, fn, "")
+		var ord []string
+		if fd != nil {
+			ord = callOrder(fset, fd, map[string]string{"breakoutError": "guard", "createImpliedDirectories": "implied", "os.Lstat": "lstat",
+				"os.RemoveAll": "remove", "createTarFile": "create", "remapIDs": "remap"})
+		}
+		emit("/-- first occurrence, in source order, of the guard and of the calls that touch the file system in %s -/", fn)
+		emit("def %sOrder : List String := %s", lowerFirst(fn), leanStrList(ord))
+	}
+	emit("")
+}
